@@ -192,6 +192,19 @@ func Yield() {
 	}
 }
 
+// YieldTxOn enables the yield points before database transactions (inserted by simgen before
+// every bbolt Update/View/Batch/Begin in rain). Only the registry world switches them on: in the
+// API stress world they made one run in thirty of a seed differ under heavy machine load (cause
+// not found), and exact replay matters more than those few extra interleavings there.
+var YieldTxOn bool
+
+// YieldTx is Yield at a database transaction boundary.
+func YieldTx() {
+	if YieldTxOn {
+		Yield()
+	}
+}
+
 // YieldSlack is what an oracle reasoning "the client read this message that long ago, so it has
 // acted on it" must add when yield points cost simulated time: a message crosses a bounded
 // number of lock acquisitions between the reader and the event loop, and each may sleep.
